@@ -528,18 +528,31 @@ def route_corr_family(ctx, env, st, key, xs, rng, lookup):
             a = np.array([2.0, -0.5][:len(Ls)])
             b = np.array([1.0, 4.0][:len(Rs)])
             a0, b0 = a.copy(), b.copy()
-            exp = sum(a[k] * b[l] * _elem(look(Ls[k] + Rs[l]) if (k or l) else mat, x, y) for k in range(len(Ls)) for l in range(len(Rs)))
-            try:
-                got = complex(obj.term_list_correlation_function_right(TermList([rel(t, i0) for t in Ls], a),
-                                                                       TermList([rel(t, j0) for t in Rs], b), i0, [j0])[0])
-            except ValueError as e:
-                got = 'ValueError: %s' % e
-            ctx.case(('ferm', key, 'tlcf', h, x), action='Fermion.term_list_correlation_function_right')
-            if got != exp or not (np.array_equal(a, a0) and np.array_equal(b, b0)):
-                _fail(ctx, 'term_list_correlation_function_right', 'value' if got != exp else 'caller-array-mutated', env, st,
-                      dict(got=str(got), terms_L=[rel(t, i0) for t in Ls], strength_L=a0.tolist(), terms_R=[rel(t, j0) for t in Rs],
-                           strength_R=b0.tolist(), arrays_after=[a.tolist(), b.tolist()], i_L=i0, j_R=[j0], **who), complex(exp))
-                ok = False
+            prods = {(k_, l_): (look(Ls[k_] + Rs[l_]) if (k_ or l_) else mat) for k_ in range(len(Ls)) for l_ in range(len(Rs))}
+            # bra/ket taken from each product term in turn (so that every summand is seen with a non-zero weight)
+            for (k0, l0), mp in sorted(prods.items()):
+                if (k0, l0) == (0, 0):
+                    xs_, ys_ = x, y
+                else:
+                    nzp = [c for c in range(len(mp)) if mp[c]]
+                    if not nzp:
+                        continue
+                    xs_ = rng.choice(nzp)
+                    ys_ = abs(mp[xs_]) - 1
+                obj2 = env.psi(xs_) if ys_ == xs_ else MPSEnvironment(env.psi(ys_), env.psi(xs_))
+                exp = sum(a[k_] * b[l_] * _elem(m_, xs_, ys_) for (k_, l_), m_ in prods.items())
+                try:
+                    got = complex(obj2.term_list_correlation_function_right(TermList([rel(t, i0) for t in Ls], a),
+                                                                            TermList([rel(t, j0) for t in Rs], b), i0, [j0])[0])
+                except ValueError as e:
+                    got = 'ValueError: %s' % e
+                ctx.case(('ferm', key, 'tlcf', h, x, k0, l0), action='Fermion.term_list_correlation_function_right')
+                if got != exp or not (np.array_equal(a, a0) and np.array_equal(b, b0)):
+                    _fail(ctx, 'term_list_correlation_function_right', 'value' if got != exp else 'caller-array-mutated', env, st,
+                          dict(got=str(got), terms_L=[rel(t, i0) for t in Ls], strength_L=a0.tolist(), terms_R=[rel(t, j0) for t in Rs],
+                               strength_R=b0.tolist(), arrays_after=[a.tolist(), b.tolist()], i_L=i0, j_R=[j0],
+                               ket=env.labels[xs_], bra=env.labels[ys_]), complex(exp))
+                    ok = False
     return ok
 
 
@@ -734,9 +747,9 @@ def make_site(T):
     from tenpy.networks import site as ts
     cls, par, cons = T['cls'], T['par'], T['cons']
     if cls == 'SpinHalfSite':
-        return ts.SpinHalfSite(conserve=_cons(cons))
+        return ts.SpinHalfSite(conserve=_cons(cons), sort_charge=T.get('sorted', True))
     if cls == 'SpinSite':
-        return ts.SpinSite(S=par[0] / 2., conserve=_cons(cons))
+        return ts.SpinSite(S=par[0] / 2., conserve=_cons(cons), sort_charge=T.get('sorted', True))
     if cls == 'FermionSite':
         return ts.FermionSite(conserve=_cons(cons), filling=par[0] / par[1])
     if cls == 'SpinHalfFermionSite':
@@ -1172,6 +1185,8 @@ def run_sites(ctx, fut):
         if op in ('init', 'pick'):
             continue
         direct_same = (op == 'GroupedSite' and st['grp']['pol'] == 'same') or st['grp'].get('pol') == 'diff'   # always replayed
+        if op == 'GroupedSite' and any(m >= 14 for m in st['members']):
+            direct_same = True                                  # groupings with an unsorted member: always replayed
         if op in ('set_common_charges', 'GroupedSite', 'set_common_charges+GroupedSite') and quick and not direct_same \
                 and rng.random() > 0.15:
             continue      # quick tier: a seeded share of the other groupings is replayed (all of them are model-checked)
